@@ -2001,3 +2001,99 @@ func ruleColAllRows(r *Run) {
 	}
 	r.Min("column_loops_rewriting_rows", n, 3)
 }
+
+// ---------------------------------------------------------------------------
+// R-SECTPR-SINGLETON (C03, C08, C11, C12): the body holds ONE section-properties element; page
+// settings and header/footer calls find it and change it in place.  Wherever a *SectionProperties
+// is appended to Body.Elements, the same operation must first have looked at EVERY element for an
+// existing one (a range over Body.Elements with a type test for *SectionProperties — directly or in
+// a finder helper).  Looking only at the last element is not enough: the element sits wherever it
+// was first created, so a second one is appended, and the saved part keeps only one of them while
+// the setters and getters use the other.
+// ---------------------------------------------------------------------------
+
+// scansAllForSectPr: fn contains a full range loop over Body.Elements whose body type-tests the
+// element for *SectionProperties.
+func scansAllForSectPr(p *Program, fn *ssa.Function) bool {
+	for _, l := range naturalLoops(fn) {
+		ri := rangeOf(l)
+		if ri == nil || !isBodyElements(p, ri.X) {
+			continue
+		}
+		for b := range l.Body {
+			for _, in := range b.Instrs {
+				if ta, ok := in.(*ssa.TypeAssert); ok && typeIs(ta.AssertedType, pkgDoc, "SectionProperties") {
+					return true
+				}
+			}
+		}
+	}
+	return false
+}
+
+func ruleSectPrSingleton(r *Run) {
+	p := r.P
+	reader := buildReaderModel(p)
+	clones := map[*ssa.Function]bool{}
+	for _, c := range discoverClones(p, pkgDoc) {
+		clones[c.Fn] = true
+	}
+	n := 0
+	for _, fn := range p.ModFuncs() {
+		if fn.Pkg == nil || fn.Pkg.Pkg.Path() != pkgDoc || reader.IsReader[topLevel(fn)] || clones[topLevel(fn)] {
+			continue
+		}
+		if fn.Signature.Recv() != nil && typeIs(fn.Signature.Recv().Type(), pkgDoc, "TemplateEngine") {
+			continue
+		}
+		allInstrs(fn, func(in ssa.Instruction) {
+			st, ok := in.(*ssa.Store)
+			if !ok {
+				return
+			}
+			ch, _ := addrChain(st.Addr)
+			if len(ch) == 0 || !fieldIs(p, ch[len(ch)-1], pkgDoc, "Body", "Elements") {
+				return
+			}
+			ap, ok := st.Val.(*ssa.Call)
+			if !ok {
+				return
+			}
+			if b, ok := ap.Call.Value.(*ssa.Builtin); !ok || b.Name() != "append" || len(ap.Call.Args) < 2 {
+				return
+			}
+			isSect := false
+			for _, e := range varargElems(ap.Call.Args[1]) {
+				v := e
+				if mi, ok := v.(*ssa.MakeInterface); ok {
+					v = mi.X
+				}
+				if ld, ok := v.(*ssa.UnOp); ok && ld.Op == token.MUL {
+					// loaded from the varargs slot: look at what was stored there
+					_ = ld
+				}
+				if typeIs(v.Type(), pkgDoc, "SectionProperties") {
+					isSect = true
+				}
+			}
+			if !isSect {
+				return
+			}
+			n++
+			ok2 := scansAllForSectPr(p, fn)
+			if !ok2 {
+				// a finder helper called before the append
+				allInstrs(fn, func(in2 ssa.Instruction) {
+					if c, ok := in2.(*ssa.Call); ok {
+						if cal := staticCallee(c); cal != nil && p.inModule(cal) && scansAllForSectPr(p, cal) && mustPassThrough(fn, st, []ssa.Instruction{c}) {
+							ok2 = true
+						}
+					}
+				})
+			}
+			r.Check("sectpr-singleton", shortName(topLevel(fn)), st.Pos(), ok2,
+				fmt.Sprintf("%s appends a section-properties element to the body; it must first have searched ALL body elements for an existing one (range over Body.Elements with a test for *SectionProperties): %s", shortName(topLevel(fn)), map[bool]string{true: "it does", false: "no such scan precedes the append — a document whose section properties are not the last element gets a second one, and page settings / header references set before are lost from the saved part"}[ok2]))
+		})
+	}
+	r.Min("section_properties_appends", n, 2)
+}
